@@ -171,6 +171,79 @@ func (n *normaliser) canonList(fd *ast.FuncDecl, list []ast.Stmt, changed bool) 
 		list = append(append(list[:i+1:i+1], els), rest...)
 		changed = true
 	}
+	// x := &T{…}; x.F = E; x.G = E2  ->  x := &T{…, F: E, G: E2}   (fields not yet in the literal, E not mentioning x)
+	for i := 0; i+1 < len(list); i++ {
+		as, ok := list[i].(*ast.AssignStmt)
+		if !ok || as.Tok != token.DEFINE || len(as.Lhs) != 1 || len(as.Rhs) != 1 {
+			continue
+		}
+		xid, ok := as.Lhs[0].(*ast.Ident)
+		if !ok || n.info.Defs[xid] == nil {
+			continue
+		}
+		var lit *ast.CompositeLit
+		switch r := as.Rhs[0].(type) {
+		case *ast.CompositeLit:
+			lit = r
+		case *ast.UnaryExpr:
+			if r.Op == token.AND {
+				lit, _ = r.X.(*ast.CompositeLit)
+			}
+		}
+		if lit == nil {
+			continue
+		}
+		if t := n.info.TypeOf(lit); t == nil {
+			continue
+		} else if _, isStruct := t.Underlying().(*types.Struct); !isStruct {
+			continue
+		}
+		have := map[string]bool{}
+		keyed := true
+		for _, el := range lit.Elts {
+			kv, ok := el.(*ast.KeyValueExpr)
+			if !ok {
+				keyed = false
+				break
+			}
+			if k, ok := kv.Key.(*ast.Ident); ok {
+				have[k.Name] = true
+			}
+		}
+		if !keyed {
+			continue
+		}
+		xobj := n.info.Defs[xid]
+		for i+1 < len(list) {
+			set, ok := list[i+1].(*ast.AssignStmt)
+			if !ok || set.Tok != token.ASSIGN || len(set.Lhs) != 1 || len(set.Rhs) != 1 {
+				break
+			}
+			sel, ok := set.Lhs[0].(*ast.SelectorExpr)
+			if !ok {
+				break
+			}
+			root, ok := sel.X.(*ast.Ident)
+			if !ok || n.info.Uses[root] != xobj || have[sel.Sel.Name] {
+				break
+			}
+			if fld, isField := n.info.Uses[sel.Sel].(*types.Var); !isField || !fld.IsField() {
+				break
+			}
+			if s := n.info.Selections[sel]; s == nil || len(s.Index()) != 1 {
+				break // a promoted field cannot be a key of this literal
+			}
+			if n.mentionsObj(set.Rhs[0], map[types.Object]bool{xobj: true}) {
+				break
+			}
+			key := &ast.Ident{Name: sel.Sel.Name, NamePos: sel.Sel.Pos()}
+			n.info.Uses[key] = n.info.Uses[sel.Sel]
+			lit.Elts = append(lit.Elts, &ast.KeyValueExpr{Key: key, Colon: set.TokPos, Value: set.Rhs[0]})
+			have[sel.Sel.Name] = true
+			list = append(list[:i+1:i+1], list[i+2:]...)
+			changed = true
+		}
+	}
 	// bare blocks
 	for i := 0; i < len(list); i++ {
 		blk, ok := list[i].(*ast.BlockStmt)
